@@ -107,6 +107,9 @@ func runC07(p *core.Program, r *core.Report) {
 	c07R5(p, r)
 	c07R6(p, r, pl)
 	c07R7(p, r, pl)
+	// R8: "each generator that rendered something has its file": what was rendered - also by deferred callbacks - is
+	// handed to the writer (C01.R5: hand-over on every path, emptiness tested after the last rendering of the iteration)
+	chainRules(p, r, "R8", "C01", []string{"C01.R5"}, "a non-empty file is always handed to the writer, emptiness is tested after the last rendering")
 }
 
 var filenameFormat = regexp.MustCompile(`^%s\.%s\.go$`)
